@@ -15,6 +15,7 @@ import (
 	"github.com/vicanso/pike/config"
 
 	"pikemc/env"
+	"pikemc/vsched"
 	"pikemc/vtime"
 )
 
@@ -491,6 +492,42 @@ func init() {
 			st.States, st.Transitions, st.Nontrivial = st.Execs*2, st.Execs*2, st.Execs
 			st.NOutcomes = int(st.Execs)
 		}
+		// a response becoming cacheable while a reload re-applies the (unchanged) compress profiles: what is stored is the
+		// best-compression profile's output at its configured levels, whichever side goes first
+		c.RunSched(Sched{
+			Name:   "store-vs-profile-reload",
+			Bounds: vsched.Bounds{Preempt: 2, Tick: 0, Data: -1, Total: -1},
+			Setup: func() ([]func(), func(*vsched.Exec) *vsched.Violation, func() string) {
+				profiles := []config.CompressConfig{{Name: compress.BestCompression, Levels: map[string]uint{"gzip": 1, "br": 1}}, {Name: "lv9", Levels: map[string]uint{"gzip": 9, "br": 9}}}
+				compress.VerifFreshRegistries()
+				compress.Reset(profiles)
+				raw := []byte(fmt.Sprintf("%x", lcg(3000, 9)))
+				resp, _ := cache.NewHTTPResponse(200, http.Header{"Content-Type": {"text/plain"}}, "", raw)
+				resp.CompressMinLength = 1024
+				hc := cache.VerifNewEntry()
+				bodies := []func(){
+					func() {
+						hc.Get()
+						hc.Cacheable(resp, 60)
+					},
+					func() { compress.Reset(profiles) },
+				}
+				check := func(x *vsched.Exec) *vsched.Violation {
+					if x.Deadlock || x.Livelock || len(x.Panics) > 0 {
+						return nil
+					}
+					var gb bytes.Buffer
+					gw, _ := gzip.NewWriterLevel(&gb, 1)
+					gw.Write(raw)
+					gw.Close()
+					if !bytes.Equal(gb.Bytes(), resp.GzipBody) {
+						return &vsched.Violation{Sig: "gzip-not-best-profile-bytes", Msg: fmt.Sprintf("a response stored while the compress profiles were re-applied holds a gzip variant of %d bytes; the configured best-compression level (1) gives %d", len(resp.GzipBody), gb.Len())}
+					}
+					return nil
+				}
+				return bodies, check, func() string { return fmt.Sprint(len(resp.GzipBody), len(resp.BrBody)) }
+			},
+		})
 		if c.Want("store-once") && c.Shard == 0 {
 			st := c.Stat("store-once", "enumeration")
 			st.Bounds = "origin encoding {identity,gzip,br} x size {below,above 1024} x type {text,image}: Cacheable then hits for every client"
